@@ -1,17 +1,2 @@
-(* GENERATED by tools/gen/g_fields.py from preprocess/fields.hh, fields.cc and the option tables of
-   dedupe_main.cc, shard_main.cc, cache_main.cc -- do not edit *)
-From Coq Require Import List ZArith.
-Import ListNotations.
-Local Open Scope Z_scope.
-
-(* std::numeric_limits<unsigned int>::max() with 32-bit unsigned int *)
-Definition kInfiniteEnd : Z := 4294967295.
-(* ULONG_MAX on LP64: the value strtoul saturates to *)
-Definition ulong_max : Z := 18446744073709551615.
-Definition dedupe_default_fields : list Z := [49; 45].
-Definition dedupe_default_delim : Z := 9.
-Definition shard_default_fields : list Z := [49; 45].
-Definition shard_default_delim : Z := 9.
-Definition cache_default_key : list Z := [45].
-Definition cache_default_separator : Z := 9.
-(* LITERALS: 0,0,0,0,0,0,0,0,0,0,1,1,1,1,1,1,1,1,1,1,1,1,1,1,9,10,47849374332489 *)
+(* translator failed: pattern for RangeFields loops not found in fields.hh (and the numeric literals of the anchored code changed: constants cannot be kept) *)
+Definition translator_failed : True := 0.
